@@ -16,6 +16,7 @@ CONSTANTS
  CoeffChoices <- MC_CoeffChoices
  RandChoices <- MC_RandChoices
  Msgs <- MC_Msgs
+ ListOrders <- MC_ListOrders
  MaxExtra <- MC_MaxExtra
  EMIT <- MC_EMIT
 INIT Init
